@@ -33,7 +33,14 @@ pub struct Spec {
     /// 0 = every k; otherwise at most this many (first, last, commit, and seeded others)
     pub max_ks: u32,
     pub check_seed: u64,
+    /// true: instead of enumerating k, the commit write is rejected while a second task keeps issuing proof
+    /// requests (batch lookups, histories, audits) on a clone of the directory during the victim publish
+    #[serde(default)]
+    pub readers: bool,
 }
+
+/// marker for "the commit write, with concurrent readers" in place of an operation index
+const READERS_K: u64 = u64::MAX - 1;
 
 fn gen(rng: &mut Rng, tier: Tier) -> Spec {
     let n = rng.range(2, 8) as usize;
@@ -118,7 +125,22 @@ fn gen(rng: &mut Rng, tier: Tier) -> Spec {
         only_k: None,
         max_ks: if tier == Tier::Thorough { 0 } else { 10 },
         check_seed: rng.next_u64(),
+        readers: false,
     }
+}
+
+fn gen_with_readers(rng: &mut Rng, tier: Tier) -> Spec {
+    let mut s = gen(rng, tier);
+    if rng.chance(1, 4) {
+        s.readers = true;
+        if rng.chance(3, 4) && s.cache == CacheSpec::None {
+            s.cache = CacheSpec::Default;
+        }
+        if rng.chance(3, 4) {
+            s.par_insert = *rng.pick(&[2, 4]);
+        }
+    }
+    s
 }
 
 #[derive(Default)]
@@ -181,15 +203,58 @@ async fn run_case<TC: ModelCfg>(spec: Spec, k: Option<u64>, dry_sites: Vec<Site>
     let base = sched::db_ops_so_far(0);
     let (pe, ph) = model.current();
     let before_digest = store.digest();
-    if let Some(k) = k {
+    let readers_mode = spec.readers && k == Some(READERS_K);
+    if readers_mode && model.classify(&spec.victim) != PublishOutcome::Advanced {
+        out.probes.push("victim_changes_nothing_(no_commit_to_reject)".into());
+        return out;
+    }
+    let stop = std::sync::Arc::new(std::sync::atomic::AtomicBool::new(false));
+    let mut reader = None;
+    if readers_mode {
+        // every database write of this handle is rejected while the victim publish runs; the reader only reads
+        sched::set_fault_plan(|f| f.write_fail_permille.push((0, 1000)));
+        let d = dir.clone();
+        let labels: Vec<akd::AkdLabel> = spec.universe.iter().map(|l| akd::AkdLabel(l.clone())).collect();
+        let known: Vec<akd::AkdLabel> = spec.universe.iter().filter(|l| model.latest(l).is_some()).map(|l| akd::AkdLabel(l.clone())).collect();
+        let stop2 = stop.clone();
+        reader = Some(tokio::spawn(async move {
+            let mut n = 0u64;
+            while !stop2.load(std::sync::atomic::Ordering::SeqCst) && n < 400 {
+                n += 1;
+                let _ = d.batch_lookup(&known).await;
+                if let Some(l) = labels.get((n as usize) % labels.len().max(1)) {
+                    let _ = d.key_history(l, akd::verify::history::HistoryParams::Complete).await;
+                }
+                if pe >= 1 {
+                    let _ = d.audit(pe - 1, pe).await;
+                }
+                tokio::time::sleep(Duration::from_millis(1)).await;
+            }
+            n
+        }));
+    } else if let Some(k) = k {
         sched::set_fault_plan(|f| f.fail_at.push((0, base + k)));
     }
     let res = dir.publish(to_akd_batch(&spec.victim)).await;
+    if readers_mode {
+        stop.store(true, std::sync::atomic::Ordering::SeqCst);
+        sched::set_fault_plan(|f| f.write_fail_permille.clear());
+    }
     // let tasks the failed call may have left behind run to completion
     for _ in 0..5000 {
         tokio::time::sleep(Duration::from_millis(2)).await;
         if sched::pending_count() == 0 {
             break;
+        }
+    }
+    if let Some(r) = reader {
+        match r.await {
+            Ok(n) => out.probes.push(format!("reader_rounds_during_victim_publish_{}", if n >= 10 { "10+".to_string() } else { n.to_string() })),
+            Err(_) => {
+                let msg = crate::sched::take_last_panic().unwrap_or_default();
+                out.violations.push(Violation::new("akd_panic", format!("a proof request running next to the failing publish panicked: {msg}")));
+                return out;
+            }
         }
     }
     let after_ops = sched::db_ops_so_far(0);
@@ -205,13 +270,13 @@ async fn run_case<TC: ModelCfg>(spec: Spec, k: Option<u64>, dry_sites: Vec<Site>
         }
         Some(k) => k,
     };
-    if out.n_ops <= k {
+    if !readers_mode && out.n_ops <= k {
         // the schedule diverged so that the publish needed fewer operations: the fault never fired
         out.probes.push("fault_not_reached".into());
         return out;
     }
     out.reached = true;
-    let phase = phase_of(&dry_sites, k as usize);
+    let phase = if readers_mode { "commit_with_concurrent_proof_requests" } else { phase_of(&dry_sites, k as usize) };
     out.probes.push(format!("failed_in_phase_{phase}"));
     out.probes.push(format!("failed_site_{:?}", dry_sites.get(k as usize)));
     let mut facts: BTreeMap<String, Value> = BTreeMap::new();
@@ -315,7 +380,7 @@ impl Arm for C10 {
         }
     }
     fn gen(&self, rng: &mut Rng, tier: Tier, _i: u64) -> Value {
-        serde_json::to_value(gen(rng, tier)).unwrap()
+        serde_json::to_value(gen_with_readers(rng, tier)).unwrap()
     }
     fn run(&self, spec_v: &Value, chooser: &ChooserSpec, log: bool) -> RunReport {
         let mut rep = RunReport::default();
@@ -340,6 +405,7 @@ impl Arm for C10 {
         let sites = dry_out.sites.clone();
         let ks: Vec<u64> = match spec.only_k {
             Some(k) => vec![k],
+            None if spec.readers => vec![READERS_K],
             None => {
                 if spec.max_ks == 0 || n <= spec.max_ks as u64 {
                     (0..n).collect()
@@ -431,7 +497,7 @@ impl Arm for C10 {
         out
     }
     fn rule(&self) -> String {
-        "one evaluation = one (history prefix of 0..4 publishes, victim publish of seeded shape: pure inserts / pure updates / mixed / single entry, later publish) under one seeded schedule and configuration (cached/uncached manager, parallel levels); a dry run counts the N storage operations of the victim publish, then the run is repeated with operation k failing for every k < N (thorough) or for first, last, commit, commit-1 and seeded others (quick). Oracle per k: the call returns Err; on the SAME instance the epoch hash is the previous pair, every label's lookup/history and audits verify to the previous state, an audit ending at the would-be epoch is refused, no transaction is open; a FRESH instance over the same storage agrees; a later, different publish succeeds and lands on the model's state as if the failed call had never been made (followed by a full read sweep). distinct non-trivial case = distinct (history, k) whose fault actually fired".into()
+        "(a quarter of the evaluations instead reject the COMMIT WRITE of the victim publish while a second task keeps issuing batch lookups, histories and audits on a clone of the directory - proof requests that preload nodes while the transaction is open - and then apply the same oracle) one evaluation = one (history prefix of 0..4 publishes, victim publish of seeded shape: pure inserts / pure updates / mixed / single entry, later publish) under one seeded schedule and configuration (cached/uncached manager, parallel levels); a dry run counts the N storage operations of the victim publish, then the run is repeated with operation k failing for every k < N (thorough) or for first, last, commit, commit-1 and seeded others (quick). Oracle per k: the call returns Err; on the SAME instance the epoch hash is the previous pair, every label's lookup/history and audits verify to the previous state, an audit ending at the would-be epoch is refused, no transaction is open; a FRESH instance over the same storage agrees; a later, different publish succeeds and lands on the model's state as if the failed call had never been made (followed by a full read sweep). distinct non-trivial case = distinct (history, k) whose fault actually fired".into()
     }
     fn assumptions(&self) -> Vec<String> {
         vec![
